@@ -68,7 +68,10 @@ def call_class(root, extdir, call):
     a1 = area(p1.replace(" (deleted)", "")) if p1 else a
     depth = len(os.path.relpath(path.replace(" (deleted)", ""), root).split(os.sep)) if path.startswith(root) else 0
     isfile = (a == "index" and depth == 4) or (a == "content" and depth == 5) or (a == "tmp" and depth == 2)
-    return {"area": a, "area1": a1, "file": isfile, "name": name, "mut": call.get("mut", 0)}
+    rel = os.path.relpath(path.replace(" (deleted)", ""), root) if path.startswith(root) else ""
+    rel1 = os.path.relpath(p1.replace(" (deleted)", ""), root) if p1.startswith(root) else ""
+    return {"area": a, "area1": a1, "file": isfile, "name": name, "mut": call.get("mut", 0), "rel": rel,
+            "rel1": rel1}
 
 
 class FsRun:
@@ -139,7 +142,8 @@ class FsRun:
             lines = [json.loads(l) for l in open(pr["out"]).read().splitlines() if l.strip()]
         except Exception:
             lines = []
-        if code != 0 or len(lines) < len(pr["reqs"]):
+        complete = len(lines) == len(pr["reqs"]) or (lines and not lines[-1].get("ok"))
+        if code != 0 or not complete:
             return {"ok": False, "e": "DIED", "code": code}
         return lines
 
